@@ -243,6 +243,21 @@ fn main() {
             let d = if rng.chance(1, 10) { zoo::gen_dotted_rect(rng) } else { zoo::gen_any::<Rgb565>(rng, &GenCfg::SMALL_DOTTED) };
             d.visit::<Rgb565, _>(&mut V { ctx, rng: &mut r2, native: false, convert: false });
         });
+        // dotted borders with more than a hundred dots per side (sides of 1030..2700 px): hundreds of
+        // target calls per drawable (seeded `C04-13`: dot positions cached for the first 128 dots, the
+        // error of the cached phase only returned after the remaining dots were drawn)
+        let nd = run.tier(32u64, 4000u64);
+        run.generate("long-dotted-rectangles", nd, false, 0.15, |ctx, idx, rng| {
+            let mut r2 = rng.clone();
+            let long = rng.u32r(1030, 2700);
+            let short = rng.u32r(8, 40);
+            let size = if idx % 2 == 0 { (long, short) } else { (short, long) };
+            let d = Desc::Styled(
+                zoo::Prim::Rect { tl: (rng.i32r(-20, 30), rng.i32r(-20, 30)), size },
+                zoo::StyleD { fill: if rng.chance(1, 4) { Some(1) } else { None }, stroke: Some(rng.u32r(4, 6)), width: rng.u32r(3, 10), align: rng.below(3) as u8, dotted: true },
+            );
+            d.visit::<Rgb565, _>(&mut V { ctx, rng: &mut r2, native: idx % 4 < 2, convert: false });
+        });
         let nt = run.tier(100_000u64, 8_000_000u64);
         run.generate("decorated-multiline-text", nt, false, 0.3, |ctx, idx, rng| {
             let mut r2 = rng.clone();
